@@ -1,5 +1,5 @@
 import OhkamiModel.Basic
-/-! Prototype of the C17 model + spec (statements only). -/
+/-! C17 model: `QueueStream::poll_next` as a step machine, the `data:` framing and the chunk framing of `send`. -/
 namespace Ohkami.Sse
 
 /-! ### QueueStream::poll_next as a step machine (ohkami_lib/src/stream.rs:321-338) -/
@@ -67,8 +67,14 @@ def splitOn (sep : UInt8) : Bytes → List Bytes
     | [] => [[]]                       -- unreachable
     | l :: ls => if b = sep then [] :: l :: ls else (b :: l) :: ls
 
+/-- CRLF, CR and LF are all line breaks of the event-stream format: `chunk.replace("\r\n", "\n").replace('\r', "\n")` -/
+def normalizeNewlines : Bytes → Bytes
+  | [] => []
+  | [b] => if b = CR then [LF] else [b]
+  | b :: c :: r => if b = CR then (if c = LF then LF :: normalizeNewlines r else LF :: normalizeNewlines (c :: r)) else b :: normalizeNewlines (c :: r)
+
 def message (chunk : Bytes) : Bytes :=
-  ((splitOn LF chunk).map fun line => dataPrefix ++ line ++ [LF]).flatten ++ [LF]
+  ((splitOn LF (normalizeNewlines chunk)).map fun line => dataPrefix ++ line ++ [LF]).flatten ++ [LF]
 
 def hexDigit (n : Nat) : UInt8 := if n < 10 then (48 + n).toUInt8 else (87 + n).toUInt8
 def hexNoLeading : Nat → Nat → Bytes      -- fuel, n
@@ -77,11 +83,6 @@ def hexNoLeading : Nat → Nat → Bytes      -- fuel, n
 
 def chunkOf (msg : Bytes) : Bytes := hexNoLeading 16 msg.length ++ [CR, LF] ++ msg ++ [CR, LF]
 def body (items : List Bytes) : Bytes := (items.map fun c => chunkOf (message c)).flatten ++ [48, CR, LF, CR, LF]
-
-/-! ### spec: de-chunking (RFC 9112 §7.1) and the WHATWG event-stream parser (`data` only) -/
-def dechunk : Nat → Bytes → Option Bytes := fun _ _ => none      -- placeholder in this prototype
-def parseEvents : Bytes → List Bytes := fun _ => []               -- placeholder in this prototype
-def normalizeNewlines : Bytes → Bytes := id                        -- CRLF | CR | LF ↦ LF
 
 
 end Ohkami.Sse
